@@ -346,13 +346,51 @@ def shrink(exe, d, h, key, budget=40):
         nxt = None
         for c, r in zip(cands, res):
             v, _ = judge_real(c, r[0], r[1])
-            if any(k == key for k, _, _ in v):
+            if any(k == key or TRACE_PFX + k == key for k, _, _ in v):
                 nxt = c
                 break
         if nxt is None:
             break
         cur = nxt
     return cur
+
+
+TRACE_PFX = "trace-build/"     # verdict keys of the -DWASI_TRACE_ENABLED=1 build of wasi.c
+
+
+def errno_answers(lines):
+    out = []
+    for l in lines:
+        p = l.split()
+        out.append(" ".join(p[:2]) if p and p[0] == "r" else (p[0] if p else ""))
+    return out
+
+
+def judge_trace(h, default, traced, notes=None):
+    """Verdicts on the run of history h on the tracing build: the same judge as the default build, plus
+    `the errno answers are the default build's` (tracing may only print).  The errno comparison holds while the
+    host's descriptor 2 is the stream tracePrintf writes to: after the history closed WASI descriptor 2 (= native 2)
+    the unmodified wasi.c prints into a closed (or re-used) descriptor, the failed fprintf overwrites `errno` between
+    the failing host call and wasiErrno() and the guest is answered EBADF — counted in `notes`, not a C13 verdict."""
+    verdicts, _ = judge_real(h, traced[0], traced[1])
+    out = [(TRACE_PFX + k, "[wasi.c built with -DWASI_TRACE_ENABLED=1] " + what, i) for k, what, i in verdicts]
+    a, b = errno_answers(default[0]), errno_answers(traced[0])
+    stderr_closed = False
+    for i in range(min(len(a), len(b))):
+        meta = h.meta[i]
+        if a[i] != b[i]:
+            call = meta["call"] if meta else h.lines[i].split()[0]
+            if stderr_closed:
+                if notes is not None:
+                    notes["errno_clobbered_by_trace_after_stderr_closed"] = notes.get("errno_clobbered_by_trace_after_stderr_closed", 0) + 1
+                    notes.setdefault("example", f"`{h.lines[i]}` after fd_close(2): `{b[i]}` with tracing, `{a[i]}` default")
+            else:
+                out.append((TRACE_PFX + f"errno-differs-from-default-build:{call}",
+                            f"`{h.lines[i]}` answers `{b[i]}` with tracing enabled and `{a[i]}` in the default build", i))
+            break
+        if meta and meta["call"] == "fd_close" and meta["fds"] == [2] and a[i] == "r 0":
+            stderr_closed = True
+    return out
 
 
 def ops_only(h):
@@ -364,9 +402,9 @@ def ops_only(h):
 def run(tier):
     chk = vlib.Check(PROP, tier)
     chk.coverage["trusted_base"] = list(vlib.GLOBAL_TRUSTED) + [
-        "AddressSanitizer/UBSan (gcc) report every double free, use after free and NULL dereference the real code performs in the generated histories",
+        "AddressSanitizer/UBSan (gcc) report every double free, use after free and NULL dereference the real code performs in the generated histories (default build and -DWASI_TRACE_ENABLED=1 build; ASan's printf interceptor checks %s arguments)",
         "malloc/strndup/realloc succeed; closedir/close results are arbitrary in the theorems (any host), concrete in the correspondence",
-        "tools/extract/gen_wasi.py (regex extractor for Gen/Wasi.lean); a mis-extraction shows as a model/real disagreement in wasi-ops",
+        "tools/extract/gen_wasi.py + wasi_cinterp.py (gcc -E, C interpreter, probes on mock hosts — default and -DWASI_TRACE_ENABLED=1 configuration) for Gen/Wasi.lean; a mis-extraction shows as a model/real disagreement in wasi-ops",
     ]
     chk.assumptions = ["histories, not schedules: the descriptor table is used from one thread",
                        "guest pointers lie inside guest memory (an out-of-range guest pointer is `.ub .outOfBounds` in the model and outside this property)"]
@@ -385,12 +423,18 @@ def run(tier):
             tagged.append(("random", random_history(chk.rng)))
         hs = [h for _, h in tagged]
         real = wo.run_histories(exe, "real", [h.lines for h in hs], d, tablecheck=True)
+        # the tracing configuration: corpus + every systematic history + a share of the random ones (all in thorough)
+        exe_tr = wo.build(repo, d, trace=True)
+        n_tr_rand = 100 if tier == "quick" else n_rand
+        tr_idx = [i for i, (t, _) in enumerate(tagged) if t != "random"] + [i for i, (t, _) in enumerate(tagged) if t == "random"][:n_tr_rand]
+        traced = dict(zip(tr_idx, wo.run_histories(exe_tr, "real", [hs[i].lines for i in tr_idx], d, tablecheck=True)))
         model = wo.run_model(WASIDRIVER, [h.lines for h in hs]) if ok else None
         chk.coverage["rule"] = ("a case is one history (setup + ≤ 16 WASI calls) run on the real wasi.c under ASan/UBSan and on the Lean model; "
                                 "non-trivial = distinct (call-name sequence, result sequence); systematic part: every descriptor-taking call × "
                                 "{closed opened fd, closed listed dir, live/closed stdio, never-issued numbers incl. 2^32-1, closed pre-open, live file/dir/pre-open} × both ABIs")
         op_hist, errno_hist, ub_hist, class_hist, tag_hist = {}, {}, {}, {}, {}
         seen_keys = {}
+        trace_notes = {}
         n_mismatch = 0
         for idx, ((tag, h), r) in enumerate(zip(tagged, real)):
             tag_hist[tag.split(":")[0]] = tag_hist.get(tag.split(":")[0], 0) + 1
@@ -410,6 +454,16 @@ def run(tier):
             for key, what, opi in verdicts:
                 if key not in seen_keys:
                     seen_keys[key] = (h, what)
+            if idx in traced:
+                if traced[idx][1].startswith("E died"):
+                    k = "trace:" + traced[idx][1].split()[2]
+                    ub_hist[k] = ub_hist.get(k, 0) + 1
+                base = {k for k, _, _ in verdicts}
+                for key, what, opi in judge_trace(h, r, traced[idx], trace_notes):
+                    if key[len(TRACE_PFX):] in base:
+                        continue          # same root cause as in the default build, reported there
+                    if key not in seen_keys:
+                        seen_keys[key] = (h, what)
             if model:
                 dis = compare(h, r, model[idx])
                 if dis:
@@ -417,15 +471,20 @@ def run(tier):
                     if n_mismatch <= 5:
                         broken.append({"kind": "correspondence", "msg": f"wasi-ops history {idx} ({tag}): {dis}", "history": h.lines})
         for key, (h, what) in sorted(seen_keys.items()):
-            small = shrink(exe, d, h, key)
+            tr = key.startswith(TRACE_PFX)
+            small = h if (tr and "errno-differs" in key) else shrink(exe_tr if tr else exe, d, h, key)
             chk.violation(key, what, {"history": small.lines, "calls": ops_only(small), "mode": "real",
-                                      "expected": "EBADF (8) and no sanitizer report",
+                                      "build": "trace (-DWASI_TRACE_ENABLED=1)" if tr else "default",
+                                      "expected": ("no sanitizer report and the errno answers of the default build" if tr
+                                                   else "EBADF (8) and no sanitizer report"),
                                       "replay_cmd": "python3 tools/check.py C13 --replay <this file>"}, True)
         chk.coverage["op_histogram"] = op_hist
         chk.coverage["errno_histogram"] = errno_hist
         chk.coverage["sanitizer_abort_histogram"] = ub_hist
         chk.coverage["descriptor_class_histogram"] = class_hist
         chk.coverage["generator_histogram"] = tag_hist
+        chk.coverage["histories_on_tracing_build"] = len(tr_idx)
+        chk.coverage["tracing_build_notes"] = trace_notes
         chk.coverage["traces_validated_against_impl"] = len(hs) if model else 0
         chk.coverage["model_real_disagreements"] = n_mismatch
     if tier == "thorough" and pr["build_ok"]:
@@ -450,10 +509,19 @@ def replay(path):
         repo = vlib.copy_repo(os.path.join(d, "repo"))
         exe = wo.build(repo, d)
         lines, end = wo.run_histories(exe, "real", [h.lines], d, tablecheck=True)[0]
+        tr = str(r.get("build", "")).startswith("trace")
+        if tr:
+            exe_tr = wo.build(repo, d, trace=True)
+            default = (lines, end)
+            lines, end = wo.run_histories(exe_tr, "real", [h.lines], d, tablecheck=True)[0]
+            print("build: wasi.c with -DWASI_TRACE_ENABLED=1")
     for l, o in zip(h.lines, lines + ["<no answer: the process died here>"] * len(h.lines)):
         print(f"  {l}    ->  {o}")
     print(end)
-    verdicts, _ = judge_real(h, lines, end)
+    if tr:
+        verdicts = judge_trace(h, default, (lines, end))
+    else:
+        verdicts, _ = judge_real(h, lines, end)
     for k, what, _ in verdicts:
         print("VIOLATES:", k, "-", what)
     return 1 if verdicts else 0
